@@ -1101,7 +1101,7 @@ impl ObjFiber {
             self.open_upvalues = {
                 let mut borrowed_upvalue = upvalue.borrow_mut();
                 borrowed_upvalue.close();
-                borrowed_upvalue.next
+                borrowed_upvalue.next.take()
             };
         }
     }
